@@ -19,6 +19,7 @@ pub fn meta(tier: &str) -> CheckMeta {
 }
 
 fn compare_parsers(name: &str, a: &tree_sitter::Language, b: &tree_sitter::Language, text: &[u8], res: &mut ShardResult, case: Value) {
+    crate::run::tick();
     let mut pa = Parser::new(); pa.set_language(a).unwrap();
     let mut pb = Parser::new(); pb.set_language(b).unwrap();
     let ta = pa.parse(text, None).unwrap();
